@@ -98,6 +98,8 @@ type fakeConn struct {
 	streams atomic.Int32
 	mode    int
 	closed  atomic.Bool // closed by anyone (manager or "remote")
+
+	statHook atomic.Pointer[func()]
 }
 
 func newFakeConn(rec *recorder, id, p, slot int, inbound bool, streams, mode int) *fakeConn {
@@ -113,6 +115,9 @@ func (c *fakeConn) RemoteMultiaddr() ma.Multiaddr { return c.addr }
 func (c *fakeConn) ID() string                     { return "c14-" + strconv.Itoa(c.id) }
 func (c *fakeConn) IsClosed() bool                 { return c.closed.Load() }
 func (c *fakeConn) Stat() network.ConnStats {
+	if h := c.statHook.Swap(nil); h != nil {
+		(*h)() // one-shot: lets a scenario deliver a notification while the manager is sorting candidates
+	}
 	d := network.DirOutbound
 	if c.inbound {
 		d = network.DirInbound
